@@ -1,12 +1,17 @@
+\* Leg A by hand:  tlc -workers 8 -config MC_KVV.cfg MC_KVV.tla      (a few seconds)
+\* tools/kvv.py writes its own copies of this file (Kind = "pair" / "cloud", the switches of
+\* spec/kvv_switches.json, Ignore = the violation classes already reported in that run).
+\* With Ignore = {} TLC stops at the first class of violation the MODEL exhibits; at the pinned
+\* commit those are the two below (both reproduced on the real stores by leg B).
 SPECIFICATION Spec
 CONSTANTS
   Kind = "pair"
   NKeys = 2
   MaxVer = 2
-  MaxW = 2
+  MaxW = 1
   BatchSequential = FALSE
   CloudChecksStaged = FALSE
-  Ignore = {"diff:results:BatchDup:mem=ok,redb=vm"}
+  Ignore = {"diff:results:BatchDup:mem=ok,redb=vm", "cloud:readable-version-lowered"}
 CONSTRAINT Bound
 VIEW View
 INVARIANTS C16 TypeOK
